@@ -197,6 +197,32 @@ fn has_unsat_ca(c: &CA) -> bool {
     }
 }
 
+fn has_leaf_ca(c: &CA, l: &A) -> bool {
+    match c {
+        CA::Leaf(x) => x == l,
+        CA::And(s) | CA::Thresh(_, s) => s.iter().any(|x| has_leaf_ca(x, l)),
+        CA::Or(s) => s.iter().any(|(_, x)| has_leaf_ca(x, l)),
+    }
+}
+fn max_or_arity(c: &CA) -> usize {
+    match c {
+        CA::Leaf(_) => 0,
+        CA::And(s) | CA::Thresh(_, s) => s.iter().map(max_or_arity).max().unwrap_or(0),
+        CA::Or(s) => s.iter().map(|(_, x)| max_or_arity(x)).max().unwrap_or(0).max(s.len()),
+    }
+}
+/// the same policy with the children of every threshold permuted (0: reversed, 1: rotated)
+fn permute_children(a: &A, variant: usize) -> A {
+    match a {
+        A::Thresh(k, subs) => {
+            let mut v: Vec<A> = subs.iter().map(|x| permute_children(x, variant)).collect();
+            if variant == 0 { v.reverse() } else if !v.is_empty() { v.rotate_left(1) }
+            A::Thresh(*k, v)
+        }
+        l => l.clone(),
+    }
+}
+
 fn guard<T>(f: impl FnOnce() -> T) -> Option<T> { catch_unwind(AssertUnwindSafe(f)).ok() }
 fn or_panic(x: Option<String>) -> String { x.unwrap_or_else(|| "PANIC".into()) }
 
@@ -216,6 +242,17 @@ impl<'a> Ctx<'a> {
     /// every single-policy op on one abstract policy; `ages` / `locks`: how many of the lock
     /// parameters to try
     fn abstract_ops(&mut self, a: &A, n_ages: usize, judge: bool) {
+        let ages: Vec<u32> = AGES.iter().copied().take(n_ages).collect();
+        let lts: Vec<u32> = LOCKTIMES.iter().copied().take(n_ages).collect();
+        self.abstract_ops_with(a, &ages, &lts, judge)
+    }
+
+    /// a panic of the library is a violation of its own: one explicit judged line
+    fn nopanic(&mut self, op: &str, input: &str, ans: &str) {
+        if ans == "PANIC" { self.out.line(&format!("J nopanic {} {} PANIC", op, input), "ok"); }
+    }
+
+    fn abstract_ops_with(&mut self, a: &A, ages_in: &[u32], lts_in: &[u32], judge: bool) {
         let p = match a_build(a) { Some(p) => p, None => { self.out.count("skipped-unconstructible"); return } };
         let w = a_wire(a);
         if !self.seen.insert(w.clone()) { return; }
@@ -235,36 +272,56 @@ impl<'a> Ctx<'a> {
         if judge {
             self.out.line(&format!("J nf {} {}", w, or_panic(norm.as_ref().map(sp_wire))), "ok");
         }
+        self.nopanic("normalize", &w, &or_panic(norm.as_ref().map(sp_wire)));
         let sorted = guard(|| p.clone().sorted());
-        self.out.line(&format!("C sort {}", w), &or_panic(sorted.as_ref().map(sp_wire)));
+        let sorted_w = or_panic(sorted.as_ref().map(sp_wire));
+        self.out.line(&format!("C sort {}", w), &sorted_w);
+        self.nopanic("sort", &w, &sorted_w);
         if small {
-            self.out.line(&format!("J equiv {} {}", w, or_panic(sorted.as_ref().map(sp_wire))), "ok");
+            self.out.line(&format!("J equiv {} {}", w, sorted_w), "ok");
+        }
+        // `sorted` is a normal form of the children's order: permute the children at every
+        // level (reversed, and rotated by one) and sort again
+        if judge && matches!(a, A::Thresh(..)) && n_occ(a) <= 40 {
+            for variant in 0..2 {
+                let a2 = permute_children(a, variant);
+                if a2 == *a { continue; }
+                if let Some(p2) = a_build(&a2) {
+                    let s2 = or_panic(guard(|| p2.clone().sorted()).as_ref().map(sp_wire));
+                    self.out.line(&format!("J sortcanon {} {} {} {}", w, a_wire(&a2), sorted_w, s2), "ok");
+                }
+            }
         }
         let mk = or_panic(guard(|| match p.minimum_n_keys() { Some(n) => n.to_string(), None => "none".into() }));
         self.out.line(&format!("C minkeys {}", w), &mk);
         if small && n_occ(a) <= 12 {
             self.out.line(&format!("J minkeys {} {}", w, mk), "ok");
         }
-        self.out.line(&format!("C nkeys {}", w), &or_panic(guard(|| p.n_keys().to_string())));
+        self.nopanic("minkeys", &w, &mk);
+        let nk = or_panic(guard(|| p.n_keys().to_string()));
+        self.out.line(&format!("C nkeys {}", w), &nk);
+        if judge { self.out.line(&format!("J nkeys {} {}", w, nk), "ok"); }
         let mut locks = vec![];
         atoms_a(a, &mut locks);
         let has_older = locks.iter().any(|x| matches!(x, A::Older(_)));
         let has_after = locks.iter().any(|x| matches!(x, A::After(_)));
-        let ages: Vec<u32> = if has_older { AGES.iter().copied().take(n_ages).collect() } else { vec![144] };
+        let ages: Vec<u32> = if has_older { ages_in.to_vec() } else { vec![144] };
         for age in ages {
             let rl = Sequence::from_consensus(age).to_relative_lock_time().unwrap();
             let r = or_panic(guard(|| p.clone().at_age(rl)).as_ref().map(sp_wire));
             self.out.line(&format!("C atage {} {}", age, w), &r);
             if small { self.out.line(&format!("J atage {} {} {}", age, w, r), "ok"); }
             if judge { self.out.line(&format!("J nf atage:{}:{} {}", age, w, r), "ok"); }
+            self.nopanic("atage", &format!("{} {}", age, w), &r);
         }
-        let lts: Vec<u32> = if has_after { LOCKTIMES.iter().copied().take(n_ages).collect() } else { vec![144] };
+        let lts: Vec<u32> = if has_after { lts_in.to_vec() } else { vec![144] };
         for n in lts {
             let lt = absolute::LockTime::from_consensus(n);
             let r = or_panic(guard(|| p.clone().at_lock_time(lt)).as_ref().map(sp_wire));
             self.out.line(&format!("C atlock {} {}", n, w), &r);
             if small { self.out.line(&format!("J atlock {} {} {}", n, w, r), "ok"); }
             if judge { self.out.line(&format!("J nf atlock:{}:{} {}", n, w, r), "ok"); }
+            self.nopanic("atlock", &format!("{} {}", n, w), &r);
         }
     }
 
@@ -277,6 +334,7 @@ impl<'a> Ctx<'a> {
             Some(false) => "false".into(),
         }));
         self.out.line(&format!("C entails {} {}", wa, wb), &r);
+        self.nopanic("entails", &format!("{} {}", wa, wb), &r);
         let normal = pa.clone().normalized() == pa && pb.clone().normalized() == pb;
         let _ = judge_unnormalized;
         if n_distinct(&[a, b]) <= 10 || n_occ(a) > 20 {
@@ -312,8 +370,23 @@ impl<'a> Ctx<'a> {
             self.out.line(&format!("J clift {} {}", w, lifted), "ok");
         }
         if lifted != "PANIC" { self.out.line(&format!("J nf {} {}", w, lifted), "ok"); }
+        self.nopanic("checktl", &w, &tl);
+        self.nopanic("clift", &w, &lifted);
         let nm = or_panic(guard(|| { let (s, m) = p.is_safe_nonmalleable(); format!("{}{}", s as u8, m as u8) }));
         self.out.line(&format!("C safenm {}", w), &nm);
+        self.nopanic("safenm", &w, &nm);
+        let has_triv = has_leaf_ca(c, &A::Triv);
+        if small && (_designated || !has_triv) {
+            // `signed` <=> every satisfaction needs a signature.  (TRIVIAL is flagged `signed`
+            // by the library: known finding, witnesses in the designated list.)
+            self.out.line(&format!("J safe {} {}", w, nm), "ok");
+        } else if small { self.out.count("safe-not-judged-contains-TRIVIAL"); }
+        let distinct = ats.iter().collect::<BTreeSet<_>>().len() == ats.len();
+        if ats.len() <= 8 && distinct && (_designated || (!has_triv && max_or_arity(c) <= 2)) {
+            // `non-malleable` claimed => semantically non-malleable (atoms pairwise distinct).
+            // (TRIVIAL and `or` with more than two branches: known findings, designated list.)
+            self.out.line(&format!("J nonmall-sound {} {}", w, nm), "ok");
+        }
         // text route
         if let Some(Ok(q)) = guard(|| CP::from_str(&p.to_string())) {
             if q == p { self.parse_same += 1 } else {
@@ -356,7 +429,7 @@ fn rand_ca(rng: &mut Rng, depth: usize, leaves: &[A], nary: bool) -> CA {
         }
         1 => {
             let n = if nary { 1 + rng.below(3) } else { 2 };
-            CA::Or((0..n).map(|_| (1 + rng.below(9), rand_ca(rng, depth - 1, leaves, nary))).collect())
+            CA::Or((0..n).map(|_| (rng.below(10), rand_ca(rng, depth - 1, leaves, nary))).collect())
         }
         _ => {
             let n = 1 + rng.below(4);
@@ -410,6 +483,27 @@ pub fn run(out: &mut Out, thorough: bool, seed: u64) {
         let k = 1 + rng.below(n);
         let a = A::Thresh(k, (0..n).map(|_| rng.pick(&d1).clone()).collect());
         cx.abstract_ops(&a, 3, true);
+    }
+    // near-twin locks: same 16 value bits with other bits set (older(5) / older(65541) /
+    // older(4194309)), same digits across the height/time boundary (after(9) / after(1000000000));
+    // ages and lock times on both sides of every value and of the unit boundaries
+    let twins: Vec<A> = vec![
+        A::Older(5), A::Older(65541), A::Older(4194309), A::After(9), A::After(1000000000), A::Key(0),
+    ];
+    let twin_ages: Vec<u32> = vec![4, 5, 6, 65540, 65541, 65542, 4194303, 4194304, 4194308, 4194309, 4194310, 4259845];
+    let twin_lts: Vec<u32> = vec![8, 9, 10, 499999999, 500000000, 999999999, 1000000000, 1000000001];
+    for l in twins.iter() { cx.abstract_ops_with(l, &twin_ages, &twin_lts, true); }
+    for n in 1..=3 {
+        let mut v = vec![];
+        all_thresh(&twins, n, &mut |a| v.push(a));
+        for a in v {
+            if n < 3 { cx.abstract_ops_with(&a, &twin_ages, &twin_lts, true); }
+            else { cx.abstract_ops_with(&a, &twin_ages[..4], &twin_lts[..3], true); }
+        }
+    }
+    for _ in 0..(if thorough { 3000 } else { 300 }) {
+        let a = rand_a(&mut rng, 3, &twins, 4);
+        cx.abstract_ops_with(&a, &twin_ages, &twin_lts, true);
     }
     // ---- 2. random deeper policies (repeated atoms, wide thresholds)
     let deep_leaves: Vec<A> = vec![
@@ -493,6 +587,13 @@ pub fn run(out: &mut Out, thorough: bool, seed: u64) {
             CA::And(vec![CA::Leaf(A::After(1)), CA::Leaf(A::After(500000001))])])]),
         // still refused, rightly: a satisfiable mixed path next to UNSATISFIABLE
         CA::Thresh(2, vec![o1.clone(), ot.clone(), un_.clone()]),
+        // is_safe_nonmalleable: TRIVIAL counts as `signed`; `or` with three branches
+        CA::Leaf(A::Triv),
+        CA::Or(vec![(1, k0.clone()), (1, CA::Leaf(A::Triv))]),
+        CA::Thresh(1, vec![k0.clone(), CA::Leaf(A::Triv)]),
+        CA::Or(vec![(1, o1.clone()), (1, CA::Leaf(A::Triv))]),
+        CA::Or(vec![(1, k0.clone()), (1, CA::Leaf(A::After(1))), (1, CA::Leaf(A::After(500000001)))]),
+        CA::Or(vec![(0, k0.clone()), (0, o1.clone())]),
         CA::And(vec![k0.clone(), k1.clone(), k2.clone()]),
         CA::And(vec![k0.clone()]),
         CA::And(vec![]),
@@ -526,7 +627,7 @@ pub fn run(out: &mut Out, thorough: bool, seed: u64) {
         let c = match rng.below(6) {
             0 => CA::And(vec![x, y]),
             5 => CA::And(vec![x, y, rng.pick(&pool).clone()]),
-            1 => CA::Or(vec![(1 + rng.below(5), x), (1 + rng.below(5), y)]),
+            1 => CA::Or(vec![(rng.below(5), x), (rng.below(5), y)]),
             2 => CA::Or(vec![(1, x), (1, y), (2, rng.pick(&pool).clone())]),
             3 => CA::Thresh(2, vec![x, y, rng.pick(&pool).clone()]),
             _ => CA::Thresh(1 + rng.below(2), vec![x, y]),
